@@ -205,7 +205,7 @@ class LeanDriver:
 
     def __init__(self, model: str):
         self.model = model
-        self.exe = LEAN / ".lake" / "build" / "bin" / "driver"
+        self.exe = LEAN / ".lake" / "build" / "bin" / f"driver_{model.lower()}"
 
     def ask(self, reqs: list) -> list:
         if not reqs:
@@ -213,7 +213,7 @@ class LeanDriver:
         if not self.exe.exists():
             raise Infra("lean driver not built")
         data = "".join(json.dumps(r, ensure_ascii=True) + "\n" for r in reqs)
-        p = subprocess.run([str(self.exe), self.model], input=data, capture_output=True, text=True, timeout=3000)
+        p = subprocess.run([str(self.exe)], input=data, capture_output=True, text=True, timeout=3000)
         if p.returncode != 0:
             raise Infra(f"driver failed: {p.stderr[:500]}")
         lines = p.stdout.splitlines()
@@ -286,11 +286,13 @@ class Check:
         self.classifiers: dict = {}     # finding class -> predicate(case) -> bool
 
     # -- proof side
-    def prove(self, extra_targets: list[str] | None = None):
+    def prove(self, extractors: list[str] | None = None, extra_targets: list[str] | None = None):
+        """regenerate the Gen tables this property needs, build its theorems + driver, audit"""
         from extract import run_extract
 
-        self.extracted = run_extract()
-        targets = [f"Koreo.Props.{self.prop}", "driver"] + (extra_targets or [])
+        self.extracted = run_extract(extractors or [])
+        driver = f"driver_{self.prop.lower()}"
+        targets = [f"Koreo.Props.{self.prop}", driver] + (extra_targets or [])
         self.build_ok, self.build_out = lean_build(targets)
         if self.build_ok:
             self.proof = lean_audit(self.prop)
@@ -298,7 +300,7 @@ class Check:
             self.proof = {"theorems": theorem_names(self.prop), "discharged": [], "ok": False,
                           "axioms_used": [], "bad_axioms": {}, "missing": [], "bad_tokens": []}
             # the driver may still be buildable without the property module
-            ok2, _ = lean_build(["driver"])
+            ok2, _ = lean_build([driver])
             if not ok2:
                 self.notes.append("driver does not build either")
         return self.build_ok and self.proof.get("ok", False)
@@ -405,7 +407,7 @@ class Check:
         cov.update({
             "obligations": len(thms),
             "discharged": len(self.proof.get("discharged", [])),
-            "checker_cmd": checker_cmd or f"cd lean && lake build Koreo.Props.{self.prop} driver && lake env lean .lake/audit/{self.prop}.lean  (#print axioms on every theorem; forbidden-token grep)",
+            "checker_cmd": checker_cmd or f"cd lean && lake build Koreo.Props.{self.prop} driver_{self.prop.lower()} && lake env lean .lake/audit/{self.prop}.lean  (#print axioms on every theorem; forbidden-token grep)",
             "trusted_base": self.trusted or [
                 "Lean 4.33.0 kernel", "hand-written model tied to the code by this run's correspondence only",
                 "harness/extract.py and harness/*.py (ordinary Python)"],
